@@ -15,7 +15,7 @@ TYPES = {
     "decimal(10,2)": ["1.50", "-0.01", "12345678.90", "null"],
     "date": ["date '2024-02-29'", "date '1970-01-01'", "null"],
     "timestamp": ["timestamp '2024-02-29 23:59:59'", "null"],
-    "varchar": ["'a'", "''", "'a,b'", "'say \"hi\"'", "'it''s'", "'l1\nl2'", "' lead'", "'NULL'", "'x|y'", "'tab\there'", "null"],
+    "varchar": ["'a'", "''", "'a,b'", "'say \"hi\"'", "'it''s'", "'l1\nl2'", "' lead'", "'NULL'", "'x|y'", "'tab\there'", "'say \"hi\", it''s me'", "'q\"|\"q'", "null"],
 }
 OPTIONS = {
     "default": "",
